@@ -58,3 +58,74 @@ theorem Table.wf_of_check (t : Table) (pred : Nat → Obj → Bool) (hn : 4 ≤ 
   · intro c; simp [Table.world, Table.sub]
 
 end BearVerif.Bear
+
+namespace BearVerif.Bear
+
+/-! ### deciding the side conditions of the Bear-core theorems on a finite table -/
+
+mutual
+/-- Boolean check of `Hint.WfIn` (and of the extra fact the explanation path needs) on a table -/
+def Hint.capsOk (t : Table) : Hint → Bool
+  | .any | .cls _ | .shallow _ | .typeOf _ => true
+  | .literal ls => !ls.isEmpty
+  | .union hs => !hs.isEmpty && capsOkList t hs && hs.all (fun h => !h.isUnion)
+  | .tupleFixed hs => capsOkList t hs
+  | .seq o h => h.capsOk t && decide (o < t.rows.length) &&
+      t.checkCap o (fun c => bitAt t.indexable c && bitAt t.sized c)
+  | .reit o h => h.capsOk t && decide (o < t.rows.length) &&
+      t.checkCap o (fun c => bitAt t.sized c && bitAt t.reiter c)
+  | .quasi _ h => h.capsOk t
+  | .mapping o k v => k.capsOk t && v.capsOk t && decide (o < t.rows.length) &&
+      t.checkCap o (fun c => bitAt t.sized c && (bitAt t.reiter c && bitAt t.mapping c))
+  | .annotated h vs => h.capsOk t && !vs.isEmpty
+def capsOkList (t : Table) : List Hint → Bool
+  | [] => true
+  | h :: hs => h.capsOk t && capsOkList t hs
+end
+
+mutual
+theorem Hint.wfIn_of_capsOk (t : Table) (pred : Nat → Obj → Bool) :
+    ∀ (h : Hint), h.capsOk t = true → h.WfIn (t.world pred)
+  | .any, _ | .cls _, _ | .shallow _, _ | .typeOf _, _ => by simp [Hint.WfIn]
+  | .literal ls, hc => by
+    simp only [Hint.capsOk, Bool.not_eq_true', List.isEmpty_eq_false_iff] at hc
+    simpa [Hint.WfIn] using hc
+  | .union hs, hc => by
+    simp only [Hint.capsOk, Bool.and_eq_true, Bool.not_eq_true', List.isEmpty_eq_false_iff] at hc
+    exact ⟨hc.1.1, wfInList_of_capsOk t pred hs hc.1.2, hc.2⟩
+  | .tupleFixed hs, hc => by
+    simp only [Hint.capsOk] at hc
+    simpa [Hint.WfIn] using wfInList_of_capsOk t pred hs hc
+  | .seq o h, hc => by
+    simp only [Hint.capsOk, Bool.and_eq_true, decide_eq_true_eq] at hc
+    refine ⟨Hint.wfIn_of_capsOk t pred h hc.1.1, ?_⟩
+    intro c hsub
+    have := t.cap_of_check o _ hc.1.2 hc.2 c hsub
+    simpa [Table.world] using this
+  | .reit o h, hc => by
+    simp only [Hint.capsOk, Bool.and_eq_true, decide_eq_true_eq] at hc
+    refine ⟨Hint.wfIn_of_capsOk t pred h hc.1.1, ?_⟩
+    intro c hsub
+    have := t.cap_of_check o _ hc.1.2 hc.2 c hsub
+    simpa [Table.world] using this
+  | .quasi o h, hc => by
+    simp only [Hint.capsOk] at hc
+    simpa [Hint.WfIn] using Hint.wfIn_of_capsOk t pred h hc
+  | .mapping o k v, hc => by
+    simp only [Hint.capsOk, Bool.and_eq_true, decide_eq_true_eq] at hc
+    refine ⟨Hint.wfIn_of_capsOk t pred k hc.1.1.1, Hint.wfIn_of_capsOk t pred v hc.1.1.2, ?_⟩
+    intro c hsub
+    have := t.cap_of_check o _ hc.1.2 hc.2 c hsub
+    simpa [Table.world] using this
+  | .annotated h vs, hc => by
+    simp only [Hint.capsOk, Bool.and_eq_true, Bool.not_eq_true', List.isEmpty_eq_false_iff] at hc
+    exact ⟨Hint.wfIn_of_capsOk t pred h hc.1, hc.2⟩
+theorem wfInList_of_capsOk (t : Table) (pred : Nat → Obj → Bool) :
+    ∀ (hs : List Hint), capsOkList t hs = true → WfInList (t.world pred) hs
+  | [], _ => by simp [WfInList]
+  | h :: hs, hc => by
+    simp only [capsOkList, Bool.and_eq_true] at hc
+    exact ⟨Hint.wfIn_of_capsOk t pred h hc.1, wfInList_of_capsOk t pred hs hc.2⟩
+end
+
+end BearVerif.Bear
